@@ -47,13 +47,29 @@ func mapTarget(m mapAPI) *c05Target {
 		growths: func() int64 { st, _ := mapStats(m); return st.TotalGrowths }}
 }
 
-func cacheTarget(c cacheAPI) *c05Target {
-	return &c05Target{name: c.Name(), zero: c.Zero(),
-		getOrSet:     func(k int, v any) (any, bool) { return c.GetOrSet(k, v, time.Hour) },
-		getOrCompute: func(k int, fn func() any) (any, bool) { return c.GetOrCompute(k, fn, time.Hour) },
-		swap:         func(k int, v any) (any, bool) { return c.GetAndSet(k, v, time.Hour) },
+// slow: the user function takes longer (in virtual time) than the TTL the
+// entry is stored with. The TTL runs from the moment the entry is created, so
+// the entry is live when the call returns and every later racer must see it.
+func cacheTarget(c cacheAPI, slow bool) *c05Target {
+	ttl := time.Hour
+	name := c.Name()
+	if slow {
+		ttl = 50
+		name += "/slow-fn"
+	}
+	tick := func() {
+		if slow {
+			vshim.AdvanceQuiet(100)
+		}
+	}
+	return &c05Target{name: name, zero: c.Zero(),
+		getOrSet: func(k int, v any) (any, bool) { return c.GetOrSet(k, v, time.Hour) },
+		getOrCompute: func(k int, fn func() any) (any, bool) {
+			return c.GetOrCompute(k, func() any { v := fn(); tick(); return v }, ttl)
+		},
+		swap: func(k int, v any) (any, bool) { return c.GetAndSet(k, v, time.Hour) },
 		compute: func(k int, fn func(any, bool) (any, bool)) (any, bool) {
-			return c.Compute(k, fn, time.Hour)
+			return c.Compute(k, func(o any, l bool) (any, bool) { n, d := fn(o, l); tick(); return n, d }, ttl)
 		},
 		refresh: func(k int) (any, bool) { return c.GetAndRefresh(k, 2*time.Hour) },
 		store:   func(k int, v any) { c.Set(k, v, time.Hour) },
@@ -81,7 +97,7 @@ func runAtomic(a *args, res *result) {
 		desc := ""
 		if isCache {
 			sp := cacheSpec{Flavor: pick(r, cacheFlavors), Ctor: "New", OptMask: 1 | 2, DefExp: time.Hour, Interval: 0, NKeys: 4096}
-			t = cacheTarget(newCache(sp))
+			t = cacheTarget(newCache(sp), r.chance(0.3))
 		} else {
 			sp := mapSpec{Flavor: pick(r, mapFlavors), Hint: pick(r, []int{noHint, 0, 200}), NKeys: 4096}
 			if sp.Flavor != "Map" && r.chance(0.5) {
